@@ -287,6 +287,14 @@ def unsupported_items(kind, get_x):
         return get_x + ["MLOAD", "POP"]
     if kind == "sha3_sym":        # pop(keccak(0, x))  -- symbolic size
         return get_x + ["PUSH0", "SHA3", "POP"]
+    # valid (Cancun) instructions halmos has no handler for; the reference interpreter answers `unsupported` when the
+    # concrete execution reaches them, which proves that the path through them is real
+    if kind == "op_selfdestruct":
+        return ["PUSH0", "SELFDESTRUCT"]
+    if kind == "op_blobhash":
+        return ["PUSH0", ("raw", b"\x49"), "POP"]
+    if kind == "op_blobbasefee":
+        return [("raw", b"\x4a"), "POP"]
     raise ValueError(kind)
 
 
@@ -369,7 +377,48 @@ def build_stuck_setup(p):
     return {"contracts": [t], "test": tsig, "truth": truth, "concrete_loop": False}
 
 
-BUILDERS = {"stuck_setup": build_stuck_setup, "regular": build_regular, "depth": build_depth, "width": build_width, "setup": build_setup, "invariant": build_invariant,
+def build_invariant_states(p):
+    """C: setN(uint256 v) { n = v }, one() { n = 1 }, n() view.   T.setUp() creates C.
+    invariant_ok(): for (i = 0; i < C.n(); i++) {}; if (i == K) Panic(1).
+    The invariant transaction is executed (by ONE SEVM) on every frontier state: the post-setUp state (n = 0), the
+    states after setN(v) (n symbolic: the loop is cut by --loop < K) and after one() (n = 1: nothing is cut).
+    `order` = order of C's functions in the artifact = order of the frontier states.  setUp; C.setN(K); invariant_ok()
+    ends in Panic(1): a PASS must carry the LOOP_BOUND warning whichever state was executed last."""
+    K, order = p["K"], p["order"]
+    bodies = {"setN(uint256)": [("push", 4), "CALLDATALOAD", "PUSH0", "SSTORE", "STOP"],
+              "one()": [("push", 1), "PUSH0", "SSTORE", "STOP"],
+              "n()": ["PUSH0", "SLOAD", "PUSH0", "MSTORE", ("push", 32), "PUSH0", "RETURN"]}
+    sigs = list(order) + ["n()"]
+    items = l3.dispatcher([(sg, f"L{k}") for k, sg in enumerate(sigs)])
+    for k, sg in enumerate(sigs):
+        items += [("label", f"L{k}"), "POP"] + bodies[sg]
+    c_rt = assemble(items)
+    c = l3.Contract("C", [(sg.split("(")[0], sig_types(sg)) for sg in sigs], c_rt, path="src/C.sol")
+    c_cr = creation_code(c_rt)
+    isig = "invariant_ok()"
+
+    def t_items(off):
+        it = l3.dispatcher([("setUp()", "S"), (isig, "I")])
+        it += [("label", "S"), "POP", ("pushn", 2, len(c_cr)), ("pushn", 2, off), "PUSH0", "CODECOPY",
+               ("pushn", 2, len(c_cr)), "PUSH0", "PUSH0", "CREATE", "PUSH0", "SSTORE", "STOP"]
+        # n = C.n()  (staticcall, result at 0x20); i = 0; while (n > i) i++;   stack: n, i
+        it += [("label", "I"), "POP", ("pushn", 32, l3.sel_int("n()") << 224), "PUSH0", "MSTORE",
+               ("push", 32), ("push", 32), ("push", 4), "PUSH0", "PUSH0", "SLOAD", ("pushn", 3, 0xFFFFFF), "STATICCALL", "POP",
+               ("push", 32), "MLOAD", "PUSH0",
+               ("label", "LOOP"), "DUP1", "DUP3", "GT", ("ref", "BODY"), "JUMPI", ("ref", "EXIT"), "JUMP",
+               ("label", "BODY"), ("push", 1), "ADD", ("ref", "LOOP"), "JUMP",
+               ("label", "EXIT"), ("push", K), "EQ", ("ref", "P"), "JUMPI", "STOP", ("label", "P")] + l3.panic_items(1)
+        return it + [("raw", c_cr)]
+
+    tmp = assemble(t_items(0))
+    off = len(tmp) - len(c_cr)
+    t_rt = assemble(t_items(off))
+    assert t_rt[off:] == c_cr
+    t = l3.Contract("T", [("setUp", []), ("invariant_ok", [])], t_rt)
+    return {"contracts": [t, c], "test": isig, "truth": "invariant", "K": K, "target_sig": "setN(uint256)", "concrete_loop": False}
+
+
+BUILDERS = {"invariant_states": build_invariant_states, "stuck_setup": build_stuck_setup, "regular": build_regular, "depth": build_depth, "width": build_width, "setup": build_setup, "invariant": build_invariant,
             "depth_multi": build_depth_multi, "stuck": build_stuck}
 
 
@@ -434,8 +483,13 @@ def gen_cases(r, tier):
     stuck = [("top", "mstore_sym"), ("call", "mstore_sym"), ("staticcall", "mload_sym"), ("delegatecall", "sha3_sym"), ("create", "mstore_sym")]
     if tier != "quick":
         stuck = [(w, k) for w in ("top", "call", "staticcall", "delegatecall", "create") for k in ("mstore_sym", "mload_sym", "sha3_sym")]
+    stuck += [("top", "op_selfdestruct"), ("call", "op_blobhash")] if tier == "quick" else [(w, k) for w in ("top", "call", "staticcall", "delegatecall", "create") for k in ("op_selfdestruct", "op_blobhash", "op_blobbasefee")]
     for w, k in stuck:
         cases.append({"family": "stuck", "params": {"where": w, "kind": k}, "options": []})
+    # the invariant's own loop is cut on some frontier states only (one SEVM over all of them)
+    for order, d, L in ([(["setN(uint256)", "one()"], 1, 2), (["one()", "setN(uint256)"], 1, 2)] if tier == "quick" else
+                        [(o, d, L) for o in (["setN(uint256)", "one()"], ["one()", "setN(uint256)"]) for d in (1, 2) for L in (2, 3)]):
+        cases.append({"family": "invariant_states", "params": {"K": 5, "order": order}, "options": ["--loop", str(L), "--invariant-depth", str(d)]})
     # ... and in setUp
     for w, k in ([("call", "mstore_sym"), ("top", "mstore_sym")] if tier == "quick" else [(w, k) for w in ("call", "top") for k in ("mstore_sym", "mload_sym", "sha3_sym")]):
         cases.append({"family": "stuck_setup", "params": {"where": w, "kind": k}, "options": []})
